@@ -17,7 +17,7 @@ import forced
 
 POINTS = ["before-arrival", "before-poll", "after-delivery", "after-response", "after-completion"]
 SUBMISSIONS = [("response", "stale:1"), ("error", "stale:1"), ("response", "unknown"), ("response", "current"), ("error", "current"),
-               ("response", "stale:2")]
+               ("response", "stale:2"), ("response", "upper"), ("error", "upper")]
 
 
 def one(sid, rnd, first, point, sub):
@@ -93,7 +93,7 @@ def scenarios(ctx):
     n = 0
     for first in ("ok", "error", "timeout", "crash"):
         for point in POINTS:
-            subs = SUBMISSIONS if not ctx.quick else rnd.sample(SUBMISSIONS, 3)
+            subs = SUBMISSIONS if not ctx.quick else rnd.sample(SUBMISSIONS, 4)
             for sub in subs:
                 n += 1
                 out.append(one("c02-%03d" % n, rnd, first, point, sub))
